@@ -290,7 +290,16 @@ pub fn measure(kind: Kind, pattern: Pattern, n: usize, seed: u64) -> Measured {
     let v = q.into_pairs();
     let (t, q4) = timed(|| AnyQ::from_iter(kind, v));
     m.bulk_ops.insert("from_iter", (t, len));
-    drop(q4);
+    // ---- a whole drain by single extractions (ends chosen by the seed): every one of them is a
+    // request with its own deadline, also the one that takes the length below a quarter or an
+    // eighth of what the queue once held (where an implementation might decide to tidy up)
+    let mut q4 = q4;
+    while !q4.is_empty() {
+        let e = if r.chance(1, 2) { End::Min } else { End::Max };
+        let (t, _) = timed(|| q4.pop(e));
+        rec(&mut m.log_ops, "pop_while_draining", t);
+        m.ops += 1;
+    }
     m
 }
 
